@@ -265,6 +265,19 @@ def phi_2D_to_3D_split_1(xx, phi_2D, deme_ids=None):
 
     return phi_2D_to_3D_admix(phi_2D,1,xx,xx,xx, deme_ids)
 
+def _check_admix_props(*fs):
+    """
+    Check that admixture proportions are sensible.
+
+    Each proportion, and the remainder 1-sum(fs) left for the final
+    population, must be non-negative. A small tolerance allows for round-off,
+    for example when a proportion passed in was itself calculated as 1-f1-f2.
+    """
+    tol = 1e-12
+    if min(fs) < -tol or sum(fs) > 1 + tol:
+        raise ValueError('Admixture proportions (%s) are non-sensible.'
+                         % ', '.join('%g' % f for f in fs))
+
 def _admixture_intermediates(phi, ad_z, zz):
     # Find where those z values map to in the zz array.
     # Note that zz[upper_z[ii,jj]] >= ad_z[ii,jj]
@@ -305,6 +318,7 @@ def _two_pop_admixture_intermediates(phi_2D, f, xx,yy,zz):
     """
     # For each point x,y in phi, this is the corresponding frequency z that SNPs
     # with frequency x and y in populations 1 and 2 would map to.
+    _check_admix_props(f)
     ad_z = f*xx[:,nuax] + (1-f)*yy[nuax,:]
 
     lower_z_index, upper_z_index, frac_lower, frac_upper, norm \
@@ -320,9 +334,7 @@ def _three_pop_admixture_intermediates(phi_3D, f1,f2, xx,yy,zz,ww):
     """
     # For each point x,y,z in phi, this is the corresponding frequency w that
     # SNPs with frequency x,y,z in populations 1,2,3 would map to.
-    if f1 + f2 > 1:
-        raise ValueError('Admixture proportions (f1=%f, f2 = %f) are '
-                         'non-sensible.' % (f1, f2))
+    _check_admix_props(f1, f2)
     ad_w = f1*xx[:,nuax,nuax] + f2*yy[nuax,:,nuax] + (1-f1-f2)*zz[nuax,nuax,:]
 
     lower_w_index, upper_w_index, frac_lower, frac_upper, norm \
@@ -338,9 +350,7 @@ def _four_pop_admixture_intermediates(phi_4D, f1,f2,f3, xx,yy,zz,aa,bb):
     """
     # For each point x,y,z,a in phi, this is the corresponding frequency b that
     # SNPs with frequency x,y,z,a in populations 1,2,3,4 would map to.
-    if f1 + f2 + f3> 1:
-        raise ValueError('Admixture proportions (f1=%f, f2 = %f, f3=%f) are '
-                         'non-sensible.' % (f1, f2, f3))
+    _check_admix_props(f1, f2, f3)
     ad_w = f1*xx[:,nuax,nuax,nuax] + f2*yy[nuax,:,nuax,nuax] + f3*zz[nuax,nuax,:,nuax]\
         + (1-f1-f2-f3)*aa[nuax,nuax,nuax,:]
 
@@ -357,9 +367,7 @@ def _five_pop_admixture_intermediates(phi_5D, f1,f2,f3,f4, xx,yy,zz,aa,bb,cc):
     """
     # For each point x,y,z,a,b in phi, this is the corresponding frequency c that
     # SNPs with frequency x,y,z,a,b in populations 1,2,3,4,5 would map to.
-    if f1 + f2 + f3 + f4 > 1:
-        raise ValueError('Admixture proportions (f1=%f, f2 = %f, f3=%f, f4=%f) are '
-                         'non-sensible.' % (f1, f2, f3,  f4))
+    _check_admix_props(f1, f2, f3, f4)
     ad_w = f1*xx[:,nuax,nuax,nuax,nuax] + f2*yy[nuax,:,nuax,nuax,nuax] + f3*zz[nuax,nuax,:,nuax,nuax]\
         + f4*aa[nuax,nuax,nuax,:,nuax] + (1-f1-f2-f3-f4)*bb[nuax,nuax,nuax,nuax,:]
 
